@@ -72,7 +72,8 @@ def oversize_job(pc, extras):
                 fw = fw[:pc * 1024] + b'\xff' * extra
             elif extra % 3 == 2:
                 fw = fw[:pc * 1024 - 7] + b'\x00' * (extra + 7)
-            r = _dfu.run(pc, fw, {}, d, symlink=(extra % 4 >= 2))   # half of them named through a symbolic link
+            # (half of them named through a symbolic link; serial numbers with every tail, also one that holds another density letter)
+            r = _dfu.run(pc, fw, {'serial_suffix': ['J', 'B', '8', '6', '4', 'JB8', '4B6'][extra % 7]}, d, symlink=(extra % 4 >= 2))
             dev = r['device']
             if dev.dnloads or bytes(dev.flash) != dev.initial:
                 res.fail('oversize:touched', 'firmware of %d bytes for a %d byte flash: %d DNLOAD requests reached the device' % (n, pc * 1024, dev.dnloads),
